@@ -38,12 +38,12 @@ theorem issue_partition (est : α → Nat × Nat) (key : α → κ) (multiple rm
 
 /-- **Bundling never mixes operations with different route or send paths**: every member of a
 packet has the key of the packet's first member. -/
-theorem issue_homogeneous' (est : α → Nat × Nat) (key : α → κ) (multiple rmin pmin index : Nat)
+theorem issue_homogeneous (est : α → Nat × Nat) (key : α → κ) (multiple rmin pmin index : Nat)
     (ops : List α) :
     ∀ p ∈ issue est key multiple rmin pmin index ops, ∀ a ∈ p.members, ∀ b ∈ p.members,
       key a = key b := by
   intro p hp a ha b hb
-  have h := issue_homogeneous est key multiple rmin pmin index ops p hp
+  have h := issue_homogeneous_head est key multiple rmin pmin index ops p hp
   cases hm : p.members with
   | nil => rw [hm] at ha; cases ha
   | cons f rest =>
